@@ -597,6 +597,10 @@ def fold(t):
     elif k == "discr":
         inner = t[1]
         if isinstance(inner, tuple) and inner[0] == "agg" and inner[1] == "adt":
+            std = {"std::option::Option": {"None": 0, "Some": 1}, "std::result::Result": {"Ok": 0, "Err": 1},
+                   "std::ops::ControlFlow": {"Continue": 0, "Break": 1}}
+            if inner[2] in std and inner[3] in std[inner[2]]:
+                return ("const", ("int", std[inner[2]][inner[3]], "isize"))
             return ("discr_of_variant", inner[2], inner[3])
     return t
 
